@@ -38,6 +38,9 @@ pub enum Op {
     /// bare ACK / RST / FIN|ACK whose acknowledgement number is related to the flow's cookie
     /// (the segment that completes a three-way handshake is a bare ACK with ack = cookie+1)
     Bare { f: u8, flags: u16, seq: u32, ack: AckMode },
+    /// ICMP / ICMPv6 error from flow f's client quoting the TCP header of a segment the responder
+    /// sent on that flow (its SYN-ACK: server port -> client port, sequence = the cookie)
+    IcmpErr { f: u8, typ4: u8, typ6: u8, code: u8 },
     Noise(Step),
 }
 
@@ -82,6 +85,7 @@ pub fn op(good: u32, noise: u32, syn: u32) -> impl Strategy<Value = Op> {
         1 => (0u8..4, any::<u32>(), any::<u32>()).prop_map(|(f, seq, ack)| Op::Ack { f, seq, ack }),
         1 => (0u8..4, any::<u32>()).prop_map(|(f, seq)| Op::Rst { f, seq }),
         2 => (0u8..4, prop::sample::select(vec![F_ACK, F_ACK, F_RST, F_FIN | F_ACK]), any::<u32>(), ack_mode(4)).prop_map(|(f, flags, seq, ack)| Op::Bare { f, flags, seq, ack }),
+        1 => (0u8..4, icmp_err_type(), prop_oneof![3 => 0u8..6, 1 => any::<u8>()]).prop_map(|(f, (typ4, typ6), code)| Op::IcmpErr { f, typ4, typ6, code }),
         noise => step_noise().prop_map(Op::Noise),
     ]
 }
@@ -302,6 +306,18 @@ pub fn run_case(c: &Case, st: &mut Stats, mode: &Mode) -> Check {
                     }
                 }
             }
+            Op::IcmpErr { f, typ4, typ6, code } => {
+                let fi = *f as usize % n;
+                let fl = &flows[fi];
+                let typ = if fl.net.is_v4() { *typ4 } else { *typ6 };
+                let l4 = tcp_seg(&fl.net.sip, &fl.net.cip, &TcpH::new(fl.dport, fl.sport, cookies[fi], next_seq[fi], F_SYN | F_ACK), &[]);
+                let out = sut.frame(&icmp_error_frame(&fl.net, typ, *code, P_TCP, &l4));
+                st.class("op:icmp-error-quoting-the-flow");
+                unvalidated_frames += 1;
+                if let Out::Panic(p) = &out {
+                    return Err(Failure::keyed(p.key(), format!("panic on ICMP error: {} {}", p.file, p.msg)));
+                }
+            }
             Op::Rst { f, seq } => {
                 let fi = *f as usize % n;
                 let out = sut.frame(&flows[fi].seg(*seq, 0, F_RST, &[]));
@@ -343,6 +359,7 @@ fn op_name(o: &Op) -> String {
         Op::FinAck { f, .. } => format!("fin-ack(f{})", f),
         Op::Ack { f, .. } => format!("ack(f{})", f),
         Op::Rst { f, .. } => format!("rst(f{})", f),
+        Op::IcmpErr { f, typ4, typ6, code } => format!("icmp-error(f{},type {}/{},code {})", f, typ4, typ6, code),
         Op::Bare { f, flags, ack, .. } => format!("bare(f{},{:#x},{:?})", f, flags, ack),
         Op::Noise(s) => format!("noise({})", s.kind()),
     }
